@@ -1,5 +1,5 @@
 """C06 - decided by spec/core/Geoh5Core.tla (TLC) + replay of the exported state graph (harness/core_replay.py)."""
 from ..core_check import make
 
-run, replay = make("C06", ["C06_quick.cfg", "C06x_quick.cfg", "C06pg_quick.cfg"], ["C06_thorough.cfg", "C06x_thorough.cfg", ("Sim_remove.cfg", {"num": 150, "depth": 30})],
+run, replay = make("C06", ["C06_quick.cfg", "C06x_quick.cfg", "C06pg_quick.cfg", "C05blk_quick.cfg"], ["C06_thorough.cfg", "C06x_thorough.cfg", ("Sim_remove.cfg", {"num": 150, "depth": 30})],
                    "explicit identifiers colliding with live entities of any kind, re-creation after removal, copies; refusals must leave live tree, registries and file unchanged; copies get fresh identifiers", neg=None)
